@@ -5,7 +5,7 @@ import io.netty.buffer.ByteBuf;
 /**
  * Stand-in checksum registry (CONTRACT.md): EMPTY (every lookup gives null) unless the environment variable
  * FP_CHECKSUM=sum is set; then every algorithm name resolves to a service whose calc(buf) is the sum of all bytes
- * currently in the buffer (index 0 to the writer index, whatever the reader index is), reduced modulo 256,
+ * currently in the buffer (index 0 to the writer index, whatever the reader index is), reduced modulo 128,
  * boxed as Integer (the result type the emitted code declares).
  */
 public final class ChecksumServiceFactory {
@@ -37,7 +37,7 @@ public final class ChecksumServiceFactory {
                 for (int i = 0; i < end; i++) {
                     sum = (sum + (buf.getByte(i) & 0xFF)) & 0xFF;
                 }
-                return Integer.valueOf(sum);
+                return Integer.valueOf(sum & 0x7F); // modulo 128: fits every result type
             }
         };
         return (ChecksumService<T, R>) svc;
